@@ -21,7 +21,15 @@ pub struct ExportReq {
 #[derive(Clone, Debug, Serialize, Deserialize)]
 pub enum Case {
     /// a generated session compared with the reference model, both directions
-    Session { sess: Session, msgs: Vec<Msg>, exports: Vec<ExportReq> },
+    Session {
+        sess: Session,
+        msgs: Vec<Msg>,
+        exports: Vec<ExportReq>,
+        /// sequence number of the first message (the hpke contexts are placed there through the hook;
+        /// the reference simply computes ComputeNonce(start + i))
+        #[serde(default)]
+        start: u64,
+    },
     /// a committed vector (file "anchors" = verified RFC 9180 Appendix A; "golden" = independent
     /// Python implementation) replayed through hpke itself
     Vector { file: String, index: usize },
@@ -52,13 +60,14 @@ fn strategy() -> BoxedStrategy<Case> {
     gen::session_any()
         .prop_flat_map(|sess| {
             let nh = sess.suite.kdf.nh();
-            (Just(sess), proptest::collection::vec(gen::msg(600), 0..=6), proptest::collection::vec(export_req(nh), 0..=3))
+            let start = prop_oneof![4 => Just(0u64), 1 => gen::position()];
+            (Just(sess), proptest::collection::vec(gen::msg(600), 0..=6), proptest::collection::vec(export_req(nh), 0..=3), start)
         })
-        .prop_map(|(sess, msgs, exports)| Case::Session { sess, msgs, exports })
+        .prop_map(|(sess, msgs, exports, start)| Case::Session { sess, msgs, exports, start })
         .boxed()
 }
 
-fn check_session(sess: &Session, msgs: &[Msg], exports: &[ExportReq], obs: &mut Obs) -> Verdict {
+fn check_session(sess: &Session, msgs: &[Msg], exports: &[ExportReq], start: u64, obs: &mut Obs) -> Verdict {
     let suite = sess.suite;
     let d = suite::get(suite);
     let keys = sess.keys();
@@ -102,13 +111,19 @@ fn check_session(sess: &Session, msgs: &[Msg], exports: &[ExportReq], obs: &mut 
         suite.label(),
         sess.mode
     );
+    if start != 0 {
+        obs.label("start-position-nonzero");
+        snd.set_seq(start);
+    }
+    // stay below the message limit: C04 owns what happens there
+    let msgs: &[Msg] = if (u64::MAX - start) < msgs.len() as u64 { &msgs[..(u64::MAX - start) as usize] } else { msgs };
     if sealing {
         for (i, m) in msgs.iter().enumerate() {
             let ct = match snd.seal(&m.pt, &m.aad) {
                 Ok(c) => c,
                 Err(e) => return Verdict::fail("C02/sender/seal-error", format!("seal #{} failed: {:?}", i, e)),
             };
-            let want = ks.seal(i as u64, &m.aad, &m.pt);
+            let want = ks.seal(start + i as u64, &m.aad, &m.pt);
             obs.inner_checks += 1;
             ensure!(
                 ct == want,
@@ -153,9 +168,12 @@ fn check_session(sess: &Session, msgs: &[Msg], exports: &[ExportReq], obs: &mut 
             return Verdict::fail("C02/setup_receiver/error", format!("setup_receiver failed with {:?} on a reference-produced encapsulated key ({})", e, suite.label()))
         }
     };
+    if start != 0 {
+        rcv.set_seq(start);
+    }
     if sealing {
         for (i, m) in msgs.iter().enumerate() {
-            let ct = ks2.seal(i as u64, &m.aad, &m.pt);
+            let ct = ks2.seal(start + i as u64, &m.aad, &m.pt);
             let got = rcv.open(&ct, &m.aad);
             obs.inner_checks += 1;
             ensure!(
@@ -258,7 +276,7 @@ impl Property for P {
     }
     fn rule(&self) -> String {
         "Generated: (suite of 48, mode, ikmR, ikmS, psk>=1B, psk_id>=1B, info, RNG stream, 0..=6 messages, 0..=3 exports with L<=255*Nh); \
-         swept: all 48x4 suite/mode cells with a fixed script; replayed: 6 verified RFC 9180 anchors and 243 golden vectors through hpke itself. \
+         in 20% of the cases the first message is at a non-zero sequence position (byte-carry boundaries, log-uniform; hpke contexts placed through the hook); swept: all 48x4 suite/mode cells with a fixed script, every sequence byte-carry boundary x 3 AEADs; replayed: 6 verified RFC 9180 anchors and 243 golden vectors through hpke itself. \
          Oracle: independent RFC 9180 reference model (own HKDF, own curve arithmetic), hpke-as-sender and hpke-as-receiver. \
          Non-trivial: a non-Base mode, or >=2 messages (nonce increments), or non-empty info with non-empty aad, or a committed vector; distinct by case encoding."
             .into()
@@ -287,15 +305,24 @@ impl Property for P {
                 sess: gen::cell_session(s, m, 2),
                 msgs: gen::fixed_msgs(2),
                 exports: vec![ExportReq { ctx: Bytes(b"ctx".to_vec()), len: 32 }, ExportReq { ctx: Bytes(vec![]), len: s.kdf.nh() + 1 }],
+                start: 0,
             })
             .collect();
+        // every byte-carry boundary of the sequence number, per sealing AEAD
+        let mut high = Vec::new();
+        for (k, aead) in r::AeadId::SEALING.into_iter().enumerate() {
+            for pos in gen::boundary_positions() {
+                let s = r::Suite { kem: r::KemId::X25519, kdf: r::KdfId::Sha256, aead };
+                high.push(Case::Session { sess: gen::cell_session(s, (k as u8 + pos as u8 % 4) % 4, 22), msgs: gen::fixed_msgs(22), exports: vec![], start: pos.saturating_sub(1) });
+            }
+        }
         let anchors: Vec<Case> = (0..vectors("anchors").len()).map(|i| Case::Vector { file: "anchors".into(), index: i }).collect();
         let golden: Vec<Case> = (0..vectors("golden").len()).map(|i| Case::Vector { file: "golden".into(), index: i }).collect();
-        vec![("rfc9180_anchors".into(), anchors), ("golden_vectors".into(), golden), ("suite_x_mode_cells".into(), cells)]
+        vec![("rfc9180_anchors".into(), anchors), ("golden_vectors".into(), golden), ("suite_x_mode_cells".into(), cells), ("sequence_boundaries_x_aead".into(), high)]
     }
     fn check(&self, case: &Case, obs: &mut Obs) -> Verdict {
         match case {
-            Case::Session { sess, msgs, exports } => check_session(sess, msgs, exports, obs),
+            Case::Session { sess, msgs, exports, start } => check_session(sess, msgs, exports, *start, obs),
             Case::Vector { file, index } => check_vector(file, *index, obs),
         }
     }
